@@ -12,14 +12,16 @@ NEED_RG = True
 MANIFEST = dict(
     text="Coq theorems (every read history, pushed-back prefix, capacity, growth policy, reused buffer, abstract "
          "Core plan and sink): replace_bytes = map; under Quit(b)/Convert(b) the roll buffer never shows b; the "
-         "reported offset is the first b of the stream; every line handed to a sink by the reader strategy is "
+         "reported offset (binary_data and finish) is the first b of the stream; every line handed to a sink by the reader strategy is "
          "b-free, by the slice strategies b-free in quit mode and b-free before the binary_data notification in "
          "convert mode; StandardSink output = rendering of b-free lines + at most one notice; notice/warning "
          "conditions exact (match_count > 0 and detection notified); SummarySink prints nothing for a quit-mode "
          "binary file; detection None = no detection; flag table. Tie to the code: extracted model vs the real "
          "searcher+printers (fragmenting reader, capacities 1.., slice sniff) and vs rg on generated trees; direct "
          "oracles: no 0x00 on stdout unless --text, notice/warning/drop conditions, --text = reference grep.",
-    note="Core's line selection is abstract in the theorems (a plan of sink calls); the correspondence instantiates "
+    note="binary_byte_offset = first occurrence is now proved (LineBuffer bookkeeping across rolls, reader events and "
+         "finish; slices: first occurrence if inside the sniffed prefix, else an occurrence in a reported line). "
+         "Core's line selection is abstract in the theorems (a plan of sink calls); the correspondence instantiates "
          "it with the context-free line search; context options, multi-line, JSON, -o/-r are covered by the CLI "
          "oracle (NUL-freeness, notice conditions) only. The literal reading 'warning if lines were already "
          "printed' is refuted for --passthru context-only output (known finding). Rendering of a line is a "
@@ -546,8 +548,8 @@ def straddle_lib_cases(default_cap):
                 bin_reply=True, max_matches=None, path=b"p/f", cap=default_cap)
     res = []
     for name, content in sorted(straddle_files(default_cap).items()):
-        for mode in (1, 2):
-            for strategy in (1, 0):
+        for mode, strategy in ((1, 1), (2, 1), (1, 0)):
+            if True:
                 c = dict(base)
                 c.update(stream=content, mode=mode, strategy=strategy)
                 res.append(c)
@@ -569,8 +571,8 @@ def run(ctx):
     cases = [gen_case(rng, default_cap) for _ in range(ctx.count(2500))]
     check_lib_cases(ctx, cases, stats)
     # fixed shapes around offset DEFAULT_BUFFER_CAPACITY: every mode x strategy, plain / count / -U / context
-    inv = [(flag, explicit, mm, om) for flag in (0, 1) for explicit in (False, True) for mm in (True, False)
-           for om in ("std",)] + [(0, False, True, "multiline"), (0, True, True, "multiline"), (1, False, True, "multiline"),
+    inv = [(0, False, True, "std"), (0, False, False, "std"), (0, True, True, "std"), (0, True, False, "std"),
+           (1, False, True, "std")] + [(0, False, True, "multiline"), (0, True, True, "multiline"), (1, False, True, "multiline"),
                                   (0, False, True, "C2"), (0, True, True, "A1"), (0, False, True, "count"),
                                   (0, True, True, "json"), (0, False, True, "only"), (0, True, False, "multiline")]
     cli_round(ctx, rng, default_cap, stats, big_ok=False, fixed=straddle_files(default_cap), invocations=inv)
